@@ -202,10 +202,6 @@ func podWebhook(ctx context.Context, req *webhook.AdmissionRequest, client clien
 			return webhook.Errored(1, err)
 		}
 		for i := range networks.PodNetworks {
-			// for now only fill eth0
-			if networks.PodNetworks[i].Interface != eth0 {
-				continue
-			}
 			if len(networks.PodNetworks[i].VSwitchOptions) == 0 {
 				networks.PodNetworks[i].VSwitchOptions = cfg.GetVSwitchIDs()
 			}
